@@ -32,11 +32,17 @@ def run(tier, replay):
     dbtrace.CLASSES["C16"] = ("protocol:",)
     modes = [["faults", c.seed * 10 + i, 40 if tier == "quick" else 150] for i in range(1 if tier == "quick" else 6)]
     modes += [["guided", c.seed], ["stress", c.seed * 10 + 5, 3, 8, 30]]
+    # controlled scheduler over twelve small fault scenarios (shutdown, cancelled and short contexts, abandoned sessions,
+    # streams): schedules enumerated depth-first within a budget, then sampled at random
+    modes += [["sysfaults", c.seed, 25, 35] if tier == "quick" else ["sysfaults", c.seed, 1500, 400]]
     for m in modes:
         d = os.path.join(work, "%s-%s" % (m[0], m[1]))
         os.makedirs(d)
         summary, recs = concrun.record(c, bins["conc"], [m[0], d] + m[1:])
         concrun.findings(c, recs, ("wedge", "panic"), "C16")
+        for rec in recs:
+            if rec.get("kind") == "schedules":
+                c.add("controlled_schedules", rec["n"])
         bads, lines = dbtrace.validate(c, d)
         dbtrace.judge(c, "C16", bads, lines, [])
         c.add("traces_validated_against_impl", sum(1 for l in lines if '"fn":"proto"' in l))
@@ -59,5 +65,5 @@ def run(tier, replay):
     c.cov["evaluations"] = c.cov.get("hook_events", 0)
     c.cov["rule"] = ("fault scenarios with 2-4 actors x 6 steps over 10 step kinds, seeded yields at every hook; distinct_nontrivial counts distinct sets of hook points "
                      "reached per run; evaluations counts validated hook events")
-    c.assumptions += ["liveness on real code is a bounded-wait observation (probe deadline 3 s, run deadline 60-90 s)", "interleavings are explored at hook granularity"]
+    c.assumptions += ["liveness on real code is a bounded-wait observation (probe deadline 15 s, closed error within 5 s, run deadlines 20-30 s)", "interleavings are explored at hook granularity"]
     return c.finish()
